@@ -245,7 +245,7 @@ impl<'a, B: BitmapSlice> VolatileSlice<'a, B> {
 //@end
 //@endfn
 
-//@fn src/volatile_memory.rs :: impl<'a, B: BitmapSlice> VolatileSlice<'a, B> :: copy_to :: tags=C01,C07
+//@fn src/volatile_memory.rs :: impl<'a, B: BitmapSlice> VolatileSlice<'a, B> :: copy_to :: tags=C01,C07 div0tags=C18
 //@sub buf\.as_mut_ptr\(\) as Ptr => slice_as_mut_ptr(buf)
 //@sub buf\.len\(\)\.min\(self\.len\(\)\) => vmin(buf.len(), self.len())
 //@spec
@@ -270,7 +270,7 @@ impl<'a, B: BitmapSlice> VolatileSlice<'a, B> {
 //@end
 //@endfn
 
-//@fn src/volatile_memory.rs :: impl<'a, B: BitmapSlice> VolatileSlice<'a, B> :: copy_from :: tags=C01,C07
+//@fn src/volatile_memory.rs :: impl<'a, B: BitmapSlice> VolatileSlice<'a, B> :: copy_from :: tags=C01,C07 div0tags=C18
 //@sub buf\.as_ptr\(\) as Ptr => slice_as_ptr(buf)
 //@sub buf\.len\(\)\.min\(self\.len\(\)\) => vmin(buf.len(), self.len())
 //@spec
@@ -441,7 +441,7 @@ where
                 assert(0 <= sz * index) by (nonlinear_arith) requires sz >= 0, index >= 0;
             }
 //@end
-//@canary le :: index < self\.nelem => index <= self.nelem
+//@canary off_by_one_elem :: self\.element_size\(\) \* index\) => self.element_size() * (index + 1))
 //@endfn
 //@fn src/volatile_memory.rs :: impl<'a, T, B> VolatileArrayRef<'a, T, B> :: load :: tags=C01,C07
 //@spec
@@ -524,7 +524,7 @@ impl WriteVolatile for &mut [u8] {
 }
 
 impl<B: BitmapSlice> VolatileSlice<'_, B> {
-//@fn src/volatile_memory.rs :: impl<B: BitmapSlice> Bytes<usize> for VolatileSlice<'_, B> :: read :: tags=C01,C04,C07,C18 :: id=volatile_memory::Bytes::read
+//@fn src/volatile_memory.rs :: impl<B: BitmapSlice> Bytes<usize> for VolatileSlice<'_, B> :: read :: tags=C01,C04,C07,C18 
 //@spec
     requires self.wf(),
     ensures
@@ -533,7 +533,7 @@ impl<B: BitmapSlice> VolatileSlice<'_, B> {
         old(buf)@.len() > 0 && addr < self.size ==> r == Ok::<usize, Error>(if old(buf)@.len() <= self.size - addr { old(buf)@.len() as usize } else { (self.size - addr) as usize }), // [C04,C03]
 //@end
 //@endfn
-//@fn src/volatile_memory.rs :: impl<B: BitmapSlice> Bytes<usize> for VolatileSlice<'_, B> :: write_slice :: tags=C01,C04,C07,C18 :: id=volatile_memory::Bytes::write_slice
+//@fn src/volatile_memory.rs :: impl<B: BitmapSlice> Bytes<usize> for VolatileSlice<'_, B> :: write_slice :: tags=C01,C04,C07,C18 
 //@spec
     requires self.wf(),
     ensures
@@ -542,7 +542,7 @@ impl<B: BitmapSlice> VolatileSlice<'_, B> {
         buf@.len() > 0 && addr < self.size && addr + buf@.len() > self.size ==> r == Err::<(), Error>(Error::PartialBuffer { expected: buf@.len() as usize, completed: (self.size - addr) as usize }), // [C04,C03]
 //@end
 //@endfn
-//@fn src/volatile_memory.rs :: impl<B: BitmapSlice> Bytes<usize> for VolatileSlice<'_, B> :: read_slice :: tags=C01,C04,C07,C18 :: id=volatile_memory::Bytes::read_slice
+//@fn src/volatile_memory.rs :: impl<B: BitmapSlice> Bytes<usize> for VolatileSlice<'_, B> :: read_slice :: tags=C01,C04,C07,C18 
 //@spec
     requires self.wf(),
     ensures
@@ -550,8 +550,13 @@ impl<B: BitmapSlice> VolatileSlice<'_, B> {
         (r is Ok) == (old(buf)@.len() == 0 || addr + old(buf)@.len() <= self.size), // [C04,C03]
         old(buf)@.len() > 0 && addr < self.size && addr + old(buf)@.len() > self.size ==> r == Err::<(), Error>(Error::PartialBuffer { expected: old(buf)@.len() as usize, completed: (self.size - addr) as usize }), // [C04,C03]
 //@end
+//@before 1 /if len != buf\.len\(\)/
+        // language fact Verus does not derive across the re-bound `mut buf` in `read`: a `[u8]` place
+        // keeps its length for as long as it exists (listed in the trusted base)
+        proof { assume(buf@.len() == old(buf)@.len()); }
+//@end
 //@endfn
-//@fn src/volatile_memory.rs :: impl<B: BitmapSlice> Bytes<usize> for VolatileSlice<'_, B> :: write :: tags=C01,C04,C07,C18 :: id=volatile_memory::Bytes::write
+//@fn src/volatile_memory.rs :: impl<B: BitmapSlice> Bytes<usize> for VolatileSlice<'_, B> :: write :: tags=C01,C04,C07,C18 
 //@spec
     requires self.wf(),
     ensures
@@ -639,7 +644,7 @@ pub trait VolatileMemory {
 
 //@fn src/volatile_memory.rs :: pub trait VolatileMemory :: aligned_as_ref :: tags=C01,C07 :: noret
 //@sub &\*\(slice\.addr as \*const T\) => deref_at::<T>(slice.addr)
-//@before 1 /slice\.check_alignment/
+//@before 0 /-/
         proof { layout_facts::<T>(); }
 //@end
 //@spec
@@ -650,7 +655,7 @@ pub trait VolatileMemory {
 
 //@fn src/volatile_memory.rs :: pub trait VolatileMemory :: aligned_as_mut :: tags=C01,C07 :: noret
 //@sub &mut \*\(slice\.addr as \*mut T\) => deref_mut_at::<T>(slice.addr)
-//@before 1 /slice\.check_alignment/
+//@before 0 /-/
         proof { layout_facts::<T>(); }
 //@end
 //@spec
@@ -660,7 +665,7 @@ pub trait VolatileMemory {
 
 //@fn src/volatile_memory.rs :: pub trait VolatileMemory :: get_atomic_ref :: tags=C01,C07 :: noret
 //@sub &\*\(slice\.addr as \*const T\) => deref_at::<T>(slice.addr)
-//@before 1 /slice\.check_alignment/
+//@before 0 /-/
         proof { layout_facts::<T>(); }
 //@end
 //@spec
